@@ -84,7 +84,7 @@ def generate(res, tier, wd, want, wrappers=("cvxpy",)):
     r = tlc("Pep", pep_cfg(2, 1, [1], wrappers, invs=False, plain=True, allowed=("lmi",)), wd)
     res.add_tlc("Pep(export: pairs of LMI shapes)", r)
     progs += [dict(p, _must=1) for p in _progs_from(r["out"]) if len(p["prog"]["lmis"]) == 2]
-    n = 3000 if tier == "quick" else 30000
+    n = 1500 if tier == "quick" else 30000
     r = tlc("Pep", pep_cfg(3, 3, classes_all, wrappers, invs=False), wd, workers=1, simulate="num=%d" % n,
             extra=["-depth", "7", "-seed", str(seed() + 3)])
     res.add_tlc("Pep(export: simulate)", r)
@@ -100,7 +100,9 @@ def fix_opts(p):
         q = dict(o)
         q["solver"] = "CLARABEL"
         if q["heur"] != "none":
-            q["tol"] = 1e-4
+            # the stated tolerance varies with the program: the default 1e-4, a smaller one, and exactly 0 (trace only)
+            hsh = int(hashlib.sha1(json.dumps(p["prog"], sort_keys=True).encode()).hexdigest(), 16)
+            q["tol"] = (1e-4, 2.0 ** -17, 0.0 if q["heur"] == "trace" else 2.0 ** -17)[hsh % 3]
             q["reg"] = 1e-1 if q["heur"].startswith("logdet") else 1e-3
         out.append(q)
     return dict(prog=p["prog"], solves=out)
